@@ -474,12 +474,20 @@ class C17(Prop):
             return None
         if len(base["vals"]) != len(other["vals"]):
             return f"{case['container']} gives a result of a different shape"
+        single = "float32" in case["container"] or "float32" in case.get("zcontainer", "")
+        S = 0.0
+        if single and case["stream"] == "score" and case.get("kind") not in (None, "elementary"):
+            # single precision: the rounding error is relative to the largest TERM of the formula (10**2.5 in float32 carries 2e-5),
+            # not to the score, which may be 0 by cancellation
+            try:
+                S = max(sc.scale(case["kind"], float(case["h"]), case["level"], float(y), float(z)) for y, z in zip(case["y"], case["z"]))
+            except Exception:
+                S = 0.0
         for a, b in zip(base["vals"], other["vals"]):
             if isinstance(a, float) and isinstance(b, float):
                 if math.isnan(a) and math.isnan(b):
                     continue
-                single = "float32" in case["container"] or "float32" in case.get("zcontainer", "")
-                if not (abs(a - b) <= (1e-5 if single else 1e-9) * max(1.0, abs(a), abs(b)) or a == b):  # "up to float rounding" (of the dtype)
+                if not (abs(a - b) <= (1e-5 if single else 1e-9) * max(1.0, abs(a), abs(b), S) or a == b):  # "up to float rounding" (of the dtype)
                     return f"{case['stream']}: {case['container']} gives {b!r} where float64 arrays give {a!r}"
             elif a != b:
                 return f"{case['stream']}: {case['container']} gives {b!r} where float64 arrays give {a!r}"
